@@ -380,6 +380,8 @@ class Lockstep:
             raise Divergence('model.add_association:valid-construction-refused',
                              'constructing %s(%s=%s, %s=%s) raised %r' % (cls, la['leftField'], lk, la['rightField'], rk, exc))
         if why is not None:
+            if len(lk) * len(rk) > 32 and why == 'dup-link':
+                self.count('class:duplicate-attempt-with-more-than-32-pairs')
             raised = self._expect_raise('add_association-' + why, lambda: m.add_association(assoc))
             if not raised:
                 raise Divergence('model.add_association:%s-accepted' % why,
@@ -394,6 +396,8 @@ class Lockstep:
                                  [sh.asset(k).id for k in rk], exc,
                                  [([sh.asset(k).id for k in s.left], [sh.asset(k).id for k in s.right]) for s in sh.assocs if s.cls == cls]))
         self.count('op:add_association:ok')
+        if len(lk) * len(rk) > 32:
+            self.count('class:link-with-more-than-32-pairs')
         if set(lk) & set(rk):
             self.count('class:self-link')
         if len(lk) > 1 or len(rk) > 1:
@@ -648,6 +652,39 @@ class Lockstep:
 # ---- history generation ----------------------------------------------------------------------
 def rref(rng, dead_share=0.1):
     return ['dead' if rng.random() < dead_share else 'live', rng.randrange(64)]
+
+
+def big_link_prefix(rng, lang):
+    """history prefix (for an empty model): one association instance with more than 32 (left, right) pairs and
+    attempts that repeat one of its pairs / a big instance that repeats the pair of a small one.  None when the
+    language has no association that is unbounded on both sides."""
+    conc = set(lang.concrete())
+    cands = []
+    for i, a in enumerate(lang.assocs):
+        if a['leftMultiplicity']['max'] is None and a['rightMultiplicity']['max'] is None:
+            tl = [t for t in lang.descendants(a['leftAsset']) if t in conc]
+            tr = [t for t in lang.descendants(a['rightAsset']) if t in conc]
+            if tl and tr:
+                cands.append((i, tl, tr))
+    if not cands:
+        return None
+    i, tl, tr = rng.choice(cands)
+    nl, nr = rng.choice([(3, 12), (12, 3), (6, 6), (5, 7), (4, 9), (2, 17), (1, 33), (8, 8), (3, 11), (11, 3)])
+    ops = [['add_asset', rng.choice(tl), None, None, True] for _ in range(nl)]
+    ops += [['add_asset', rng.choice(tr), None, None, True] for _ in range(nr)]
+    L = [['live', k] for k in range(nl)]
+    R = [['live', nl + k] for k in range(nr)]
+    one = ([rng.choice(L)], [rng.choice(R)])
+    v = rng.randrange(4)
+    if v == 0:
+        ops += [['add_assoc', i, one[0], one[1]], ['add_assoc', i, L, R]]                  # big repeats the pair of a small one
+    elif v == 1:
+        ops += [['add_assoc', i, L, R], ['add_assoc', i, one[0], one[1]], ['add_assoc', i, L, R]]
+    elif v == 2:
+        ops += [['add_assoc', i, L[:-1] or L, R], ['add_assoc', i, L, R[-1:]], ['add_assoc', i, L, R]]   # second is new only in its last left member
+    else:
+        ops += [['add_assoc', i, L, R[:1]], ['add_assoc', i, L, R[1:]], ['add_assoc', i, L, R]]          # two disjoint ones (valid), then their union
+    return ops
 
 
 def gen_history(rng, lang, n, invalid=0.2, names=None, attackers=True):
